@@ -163,7 +163,8 @@ register(
 register(
     "C02",
     lean_modules=["EventppVerif.Properties.C02"],
-    theorems=[],
+    theorems=["Evp.C02_simulation", "Evp.C02_init", "Evp.C02_content", "Evp.C02_no_ub", "Evp.C02_inert",
+              "Evp.sim_step", "Evp.minv_runN"],
     fragments=[],
     suites=[cl_suite("reent", 400, 12000, rule="random re-entrant programs: callbacks remove/insert near themselves (self, self+-1, self+-2), append, prepend, "
                      "re-invoke and enumerate to depth 3, through live / removed / never-issued handles; single, std::mutex and (thorough) SpinLock policies; "
